@@ -155,8 +155,10 @@ ParseTimestamp(s) ==
 (***************************************************************************)
 (* method names                                                            *)
 (***************************************************************************)
-MethodNames == [m \in 1..6 |-> CASE m = 1 -> "average" [] m = 2 -> "sum" [] m = 3 -> "last"
-                                 [] m = 4 -> "max" [] m = 5 -> "min" [] m = 6 -> "first"]
+\* every declared method value has a name (7 and 8 are declared but not storable: C07 rejects them, C19 still prints and parses them)
+MethodNames == [m \in 1..8 |-> CASE m = 1 -> "average" [] m = 2 -> "sum" [] m = 3 -> "last"
+                                 [] m = 4 -> "max" [] m = 5 -> "min" [] m = 6 -> "first"
+                                 [] m = 7 -> "mix" [] m = 8 -> "percentile"]
 
 (***************************************************************************)
 (* Laws (TLC, bounded domains)                                             *)
